@@ -87,6 +87,7 @@ class OldApiScenario:
             if ch.bool("ic", 0.3):
                 self.style_args["compress"] = ch.pick("icv", (0, 9))
         self.seek_to = ch.int("seek", 0, self.n - 1) if self.animated_src and ch.bool("sk", 0.3) else 0
+        self.forced = ch.bool("forced_support", 0.2)
         self.tmp_path = None
 
     # -- construction --------------------------------------------------------------
@@ -106,6 +107,10 @@ class OldApiScenario:
                 data = images.still_bytes(self.src_w, self.src_h, self.mode)
             suffix = ".png"
         kw = {}
+        if self.forced and self.style != "block":
+            # support forced by the application before the first instance exists: the class
+            # still has to find out what terminal it is on (frame clearing, cursor handling)
+            cls.forced_support = True
         if self.sizing != "dynamic":
             kw = {"width": self.size[0], "height": self.size[1]}
         if self.source_kind == "file":
